@@ -52,6 +52,15 @@ pub fn check_all(c: &mut Checks, w: &World, miners: &[MinerH], stats: &mut CaseS
     let pv = read_power(&w.v);
     let mut sum_claims = Pow::default();
     for m in miners {
+        if !c.changed("partition", m.id) {
+            if c02 {
+                let (claim, _) = pv.claims.get(&m.id).cloned().unwrap_or_default();
+                let ap = c.cached_active.get(&m.id).cloned().unwrap_or_default();
+                vassert!(claim == ap, "claim-ne-active-sectors", "miner {} is credited {:?} but its proven, healthy, unexpired sectors sum to {:?}", m.id, claim, ap);
+                sum_claims.add(&claim);
+            }
+            continue;
+        }
         let mv = &c.views[&m.id];
         let mut active_power = Pow::default();
         let mut seen: BTreeMap<u64, (usize, usize)> = BTreeMap::new();
@@ -177,6 +186,7 @@ pub fn check_all(c: &mut Checks, w: &World, miners: &[MinerH], stats: &mut CaseS
         }
         if c02 {
             let (claim, _) = pv.claims.get(&m.id).cloned().unwrap_or_default();
+            c.cached_active.insert(m.id, active_power.clone());
             vassert!(claim == active_power, "claim-ne-active-sectors", "miner {} is credited {:?} but its proven, healthy, unexpired sectors sum to {:?}", m.id, claim, active_power);
             sum_claims.add(&claim);
             if !active_power.is_zero() {
@@ -213,6 +223,16 @@ pub fn after_deadline_close(c: &mut Checks, w: &World, miners: &[MinerH], epoch:
     let _ = w;
     for m in miners {
         let mv = &c.views[&m.id];
+        // no sector stays live (and powered) past the deadline end at which it expires or times out
+        if mv.cron_active {
+            for (di, d) in mv.deadlines.iter().enumerate() {
+                for (pi, p) in d.partitions.iter().enumerate() {
+                    if let Some((e, set)) = p.expirations.iter().next() {
+                        vassert!(*e > epoch, "expiration-not-processed", "miner {} deadline {} partition {}: sectors {:?}/{:?} were due at {} and are still live after the tick at {}", m.id, di, pi, set.on_time, set.early, e, epoch);
+                    }
+                }
+            }
+        }
         if !mv.cron_active && !c.ever_active.contains(&m.id) {
             continue;
         }
